@@ -113,6 +113,16 @@ class CoderState(object):
 
         self.idx_value = 0  # only needed for encoder
 
+        self.reset_template_state()
+
+    # noinspection PyAttributeOutsideInit
+    def reset_template_state(self):
+        """
+        (Re)initialise everything that is set while walking the template:
+        operators in effect, bitmap definition and back references. Each subset
+        of uncompressed data is a fresh application of the template, so this is
+        done at the start of every subset as well as at creation.
+        """
         self.nbits_offset = 0  # 201
         self.scale_offset = 0  # 202
 
@@ -152,10 +162,11 @@ class CoderState(object):
         This function is only useful for uncompressed data.
         """
         self.idx_subset = idx_subset
-        # Reset new reference values to empty at start of each subset as anything defined
-        # from previous subset should NOT affect this subset. Also we do not
-        # care about what is defined in previous subset so we are not saving them.
-        self.new_refvals = {}
+        # Reset operators, new reference values, bitmaps and back references at
+        # the start of each subset as anything defined from previous subset
+        # should NOT affect this subset. Also we do not care about what is
+        # defined in previous subset so we are not saving them.
+        self.reset_template_state()
         self.decoded_descriptors = self.decoded_descriptors_all_subsets[idx_subset]
         self.decoded_values = self.decoded_values_all_subsets[idx_subset]
         self.bitmap_links = self.bitmap_links_all_subsets[idx_subset]
